@@ -41,7 +41,7 @@ Small ==
   \cup {SExpr(Call0(m, "a")) : m \in {"pop", "popfirst", "length", "sort"}}
   \cup {SExpr(Call0("popfirst", "b")), SExpr(Call0("sort", "b"))}
   \cup {SExpr(Call1("contains", "a", LLit(v))) : v \in {Num(2), Null, Num(0)}}
-  \cup {SExpr(Call1("push", "a", LGet("b", 5))), SExpr(Call1("push", "a", LGet("a", 5))), SExpr(Call1("push", "a", LMiss)), SInc("a", -1)}
+  \cup {SExpr(Call1("push", "a", LGet("b", 5))), SExpr(Call1("push", "a", LGet("a", 5)))}   \* followed by a[2] = 7 / a[0] = 7
   \cup {SExpr(LGet("a", -1)), SExpr(LGet("a", -3)), SSet("a", 0, Num(7)), SSet("a", 2, Num(7)), SSet("b", -1, Num(7))}
   \cup {SExpr(Call1("push", "a", Call1("push", "b", LLit(Num(2))))), SExpr(Call1("push", "b", Call0("pop", "a"))),
         SExpr(Call1("push", "a", Call0("popfirst", "a"))), SExpr(Call1("contains", "a", Call0("length", "b"))),
